@@ -150,6 +150,31 @@ pub fn run(ctx: &mut Ctx) {
                         viols.push(Viol::new("unexpected_error", format!("{:?}", e)));
                         return;
                     }
+                    // the same two-image mapping through windows: source a CroppedImageMut (odd widths) or CroppedImage at an
+                    // off-diagonal position of a bigger image, destination a CroppedImageMut inside its own parent
+                    if width % 2 == 1 || width == 4 {
+                        use firv::containers::{image_with_window, window_of_image};
+                        let (w32, h32) = (w as u32, h as u32);
+                        let mut sparent = image_with_window(pt_of(c.src16, c.nc), src.buffer(), w32, h32, 3, 1, w32 + 4, h32 + 2, 0x5a);
+                        let zero = vec![0u8; w * h * pt_of(c.dst16, c.nc).size()];
+                        let mut dparent = image_with_window(pt_of(c.dst16, c.nc), &zero, w32, h32, 1, 2, w32 + 3, h32 + 4, 0xa5);
+                        let r = {
+                            let mut dwin = CroppedImageMut::new(&mut dparent, 1, 2, w32, h32).unwrap();
+                            if width % 2 == 1 {
+                                let swin = CroppedImageMut::new(&mut sparent, 3, 1, w32, h32).unwrap();
+                                if c.forward { mp.forward_map(&swin, &mut dwin) } else { mp.backward_map(&swin, &mut dwin) }
+                            } else {
+                                let swin = CroppedImage::new(&sparent, 3, 1, w32, h32).unwrap();
+                                if c.forward { mp.forward_map(&swin, &mut dwin) } else { mp.backward_map(&swin, &mut dwin) }
+                            }
+                        };
+                        stats.count("mappings_through_windows", 1);
+                        let (wb, clean) = window_of_image(&dparent, w32, h32, 1, 2, 0xa5);
+                        if r.is_err() || wb != dst.buffer() || !clean {
+                            viols.push(Viol::new("mapping_depends_on_container", format!("row width {}: {:?}; mapping through cropped windows (source {}) differs from the mapping of plain images{}", width, r, if width % 2 == 1 { "CroppedImageMut" } else { "CroppedImage" }, if clean { "" } else { " / the parent changed outside the window" })).sig(json!({"clause": "container"})));
+                            return;
+                        }
+                    }
                     from_image(&dst, c.dst16)
                 };
                 for (i, (&v, &o)) in comps.iter().zip(out.iter()).enumerate() {
